@@ -200,6 +200,8 @@ func (prop) Generate(rng *rand.Rand, tier string) []corr.Case {
 		ops = append(ops, "range - - ffff -1 0", "commit", "revert")
 		cases = append(cases, corr.Case{Ops: ops, Tag: "snapshot"})
 	}
+	// commit2 family (commit2.go): the staged store stays in use after a Commit whose batch is discarded
+	cases = append(cases, genCommit2(rng, n/3)...)
 	return cases
 }
 
@@ -221,6 +223,8 @@ type runner struct {
 	// so that sibling sub-views of one parent coexist
 	views     map[string]*diffdb.Database
 	viewsRoot *diffdb.Database
+	// commit2.go: the last discarded commit (repeatability clause)
+	c2 commit2State
 }
 
 func copyMap(m map[string][]byte) map[string][]byte {
@@ -493,7 +497,7 @@ func (r *runner) step(op string) string {
 	case "dump":
 		return r.dumpDB()
 	}
-	return "bad-op"
+	return r.step2(w, op)
 }
 
 func showDiff(d *diffdb.Diff) string {
@@ -531,6 +535,7 @@ func (prop) RunImpl(c corr.Case) ([]string, []corr.Fail) {
 					r.fail("panic", fmt.Sprintf("%s: %v", op, e))
 				}
 			}()
+			r.c2.note(op)
 			out = append(out, r.step(op))
 		}()
 	}
@@ -554,6 +559,11 @@ func (prop) Classify(c corr.Case, out []string) string {
 				kinds["commit"] = true
 			}
 			staged = false
+		case "commitd":
+			// a discarded commit of a non-empty overlay which stays in use
+			if staged && i < len(out) && !strings.HasPrefix(out[i], "A:- U:- D:-") && i+1 < len(c.Ops) {
+				kinds["recommit"] = true
+			}
 		case "range", "iter":
 			if staged && i < len(out) && out[i] != "-" {
 				kinds[w] = true
